@@ -307,9 +307,9 @@ theorem set_frame_instance {s s' : State} (sl : Slot) (i : Nat) (v : PyVal)
     instance, abstract class instantiated, unknown target) leaves the whole state as it was -/
 theorem reject_pure (s : State) (op : Op) (e : Err) (hr : (step s op).2 = .err e) : (step s op).1 = s := by
   cases op with
-  | nc p d =>
-    change (stepG implSem s (.nc p d)).2 = _ at hr
-    show (stepG implSem s (.nc p d)).1 = s
+  | nc p d dm =>
+    change (stepG implSem s (.nc p d dm)).2 = _ at hr
+    show (stepG implSem s (.nc p d dm)).1 = s
     simp only [stepG] at hr ⊢
     split
     · rename_i hp; rw [if_pos hp] at hr; cases hr
@@ -522,6 +522,48 @@ theorem global_reset_shared {s s' : State} (c : Nat)
       subst hs
       exact ⟨rfl, rfl, rfl⟩
 
+/-- ONE cell, whatever the class is accessed through: any two iterm2 classes or instances — of the
+    library class, of plain subclasses, of subclasses declared with a metaclass DERIVED from
+    `ITerm2ImageMeta` (`Info.dmeta`) and of their descendants — read the same value, and after an
+    accepted set (reset) through any of them every one reads the new value (the default).  The
+    metaclass dimension is carried by the class table and ignored by the cell. -/
+theorem nam_global (s : State) (t₁ t₂ : Target) (h₁ : t₁.valid s = true) (h₂ : t₂.valid s = true)
+    (i₁ : (s.info (t₁.clsOf s)).iterm = true) (i₂ : (s.info (t₂.clsOf s)).iterm = true) :
+    getG implSem s .na t₁ = getG implSem s .na t₂ ∧
+    (∀ c v s', setG implSem s .na (.cls c) v = .ok s' →
+      getG implSem s' .na t₁ = .ok v ∧ getG implSem s' .na t₂ = .ok v) ∧
+    (∀ c s', delG implSem s .na (.cls c) = .ok s' →
+      getG implSem s' .na t₁ = .ok (.int s.dft.na) ∧ getG implSem s' .na t₂ = .ok (.int s.dft.na)) := by
+  refine ⟨by rw [global_shared s t₁ h₁ i₁, global_shared s t₂ h₂ i₂], ?_, ?_⟩
+  · intro c v s' hs
+    obtain ⟨_, _, _, hinfo, hicls, hall⟩ := global_set_shared c v hs
+    have hn : s'.ncls = s.ncls ∧ s'.ninst = s.ninst := by
+      unfold setG at hs
+      split at hs
+      · cases hs
+      · simp only [] at hs
+        split at hs
+        · cases hs
+        · split at hs
+          · cases hs
+          · injection hs with hs; subst hs; exact ⟨rfl, rfl⟩
+    have tv : ∀ t : Target, t.valid s' = t.valid s := by
+      intro t; cases t <;> simp [Target.valid, hn.1, hn.2]
+    have tc : ∀ t : Target, t.clsOf s' = t.clsOf s := by
+      intro t; cases t <;> simp [Target.clsOf, hicls]
+    exact ⟨hall t₁ (by rw [tv]; exact h₁) (by rw [tc, hinfo]; exact i₁),
+      hall t₂ (by rw [tv]; exact h₂) (by rw [tc, hinfo]; exact i₂)⟩
+  · intro c s' hs
+    unfold delG at hs
+    split at hs
+    · cases hs
+    · simp only [] at hs
+      split at hs
+      · cases hs
+      · injection hs with hs
+        subst hs
+        exact ⟨global_shared _ t₁ h₁ i₁, global_shared _ t₂ h₂ i₂⟩
+
 /-- no operation on one of the four inheritable settings changes the global limit -/
 theorem global_untouched_by_slots {s s' : State} (sl : Slot) (t : Target)
     (hs : (∃ v, setG implSem s (.slot sl) t v = .ok s') ∨ delG implSem s (.slot sl) t = .ok s') :
@@ -668,6 +710,17 @@ example :
     errOf (step demo (.set (.slot .rm) (.inst 0) (.int 1))) = some .TypeError ∧
     errOf (step demoI (.set .na (.cls 7) (.int 0))) = some .ValueError ∧
     errOf (step demo (.ni 1 true)) = some .OutOfModel := by decide
+
+/-- `nam_global`: `M6(ITerm2Image, metaclass=<derived>)`, its plain subclass `U7` (inherits the derived
+    metaclass), a plain sibling `U8` with an instance: a set through `U7` is read through
+    `ITerm2Image`, `U8` and the instance -/
+example :
+    let s := (run init [.nc 3 none true, .nc 6 none, .nc 3 none, .ni 8 true]).1
+    ((s.info 6).dmeta, (s.info 7).dmeta, (s.info 8).dmeta) = (true, true, false) ∧
+    ((okState (setG implSem s .na (.cls 7) (.int 4096))).map fun s' =>
+      [okState (getG implSem s' .na (.cls 3)), okState (getG implSem s' .na (.cls 6)),
+       okState (getG implSem s' .na (.cls 8)), okState (getG implSem s' .na (.inst 0))]) =
+      some [some (PyVal.int 4096), some (PyVal.int 4096), some (PyVal.int 4096), some (PyVal.int 4096)] := by decide
 
 /-- `instance_readonly_*`: instances (of an iterm2 class) exist -/
 example : (0 < demoI.ninst) ∧ (demoI.info (demoI.icls 0)).iterm = true ∧ 0 < demo.ninst := by decide
